@@ -72,6 +72,7 @@ def permute (order : String) (rs : List Region) : List Region :=
 structure World where
   leader    : Option Leader := none
   followers : List (Follower × Nat) := []     -- follower, history capacity
+  lcap      : Nat := 0
   hb        : Option (Buf Nat) := none
   hcap      : Nat := 0
   held      : List (Nat × List (Option Nat)) := []   -- answers of RecordsFrom kept by the caller (values)
@@ -130,7 +131,14 @@ def modelStep (w : World) (ws : List String) : World × String :=
   | ["leader", c] =>
     match w.leader with
     | some _ => bad
-    | none => ({ w with leader := some { hist := HistoryBuf.new (capOf (natArg c)) none flushC } }, "ok")
+    | none => ({ w with leader := some { hist := HistoryBuf.new (capOf (natArg c)) none flushC }, lcap := natArg c }, "ok")
+  | ["lrestart"] =>
+    match w.leader with
+    | none => bad
+    | some l =>
+      let l' : Leader := { cache := l.cache, hist := restart l.hist (capOf w.lcap) }
+      ({ w with leader := some l', followers := mapFollowers w.followers (fun f => { f with connected := false }) (fun _ => true) },
+       s!"ok lnext={l'.hist.index}")
   | ["put", spec] =>
     match w.leader, parseRegion spec with
     | some l, some r =>
@@ -159,16 +167,20 @@ def modelStep (w : World) (ws : List String) : World × String :=
       if !f.connected || i.toNat?.isNone || specs.length < 2 || specs.length > 5 || rs.length != specs.length
           || rs.any (·.leader.isNone) then bad
       else
+        -- the leader's cache and history take the changes one by one; the first accepted change is sent alone
+        -- (its send is parked), the others wait in the channel and leave as one message
         let res := rs.foldl
-          (fun (acc : World × Leader × String × List Msg) r =>
-            match leaderPut acc.2.1 r with
-            | (l', some m) =>
-              ({ acc.1 with followers := mapFollowers acc.1.followers (fun f => applyMsg f m) (·.connected) }, l',
-               acc.2.2.1 ++ "1", acc.2.2.2 ++ [m])
-            | (_, none) => (acc.1, acc.2.1, acc.2.2.1 ++ "0", acc.2.2.2)) (w, l, "", [])
-        let w' := { res.1 with leader := some res.2.1 }
+          (fun (acc : Leader × String × List Msg) r =>
+            match leaderPut acc.1 r with
+            | (l', some m) => (l', acc.2.1 ++ "1", acc.2.2 ++ [m])
+            | (_, none) => (acc.1, acc.2.1 ++ "0", acc.2.2)) (l, "", [])
+        let sent : List Msg := match res.2.2 with
+          | [] => []
+          | m :: rest => m :: (mergeMsgs rest).toList
+        let fs := sent.foldl (fun fs m => mapFollowers fs (fun f => applyMsg f m) (·.connected)) w.followers
+        let w' := { w with leader := some res.1, followers := fs }
         let fn := match w'.followers[natArg i]? with | some (f', _) => f'.hist.index | none => 0
-        (w', s!"ok acc={res.2.2.1} next={res.2.1.hist.index} msgs={fmtMsgs res.2.2.2} fnext={fn}")
+        (w', s!"ok acc={res.2.1} next={res.1.hist.index} msgs={fmtMsgs sent} fnext={fn}")
     | _, _ => bad
   | ["follower", c] =>
     if w.followers.length ≥ 4 then bad
@@ -232,6 +244,7 @@ structure MonF where
   tainted   : Bool := false          -- received hand-made messages: no longer a copy of the leader, not judged
 
 structure Mon where
+  lnext   : Option Nat := none -- the leader's next index as last reported
   -- change log
   cap     : Nat := 0
   log     : C16.Log Nat := { log := [], next := 0 }
@@ -342,10 +355,20 @@ def monitor (m : Mon) (ws : List String) (impl : String) : Mon × List String :=
       ({ m with cap := cap, log := { log := [], next := n } }, fails)
     | none => (m, [])
   | ["follower", _] => (if impl == "ok" then { m with fs := m.fs ++ [{}] } else m, [])
+  | ["lrestart"] =>
+    match natField impl "lnext" with
+    | some n =>
+      let fails := match m.lnext with
+        | some b => if C16.checkRestartLag C16.flushInterval b n then [] else
+            [s!"sig=C16.restart-lag leader before={b} after={n} flush={C16.flushInterval}"]
+        | none => []
+      ({ m with lnext := some n, fs := m.fs.map (fun x => { x with connected := false }) }, fails)
+    | none => (m, [])
   | ["put", _] | ["putn", _, _] =>
     -- an accepted change reaches the connected followers only; the others fall behind
     match natField impl "next" with
     | some n =>
+      let m := { m with lnext := some n }
       let changed := (ws.length == 2) || (natField impl "accepted" != some 0)
       if !changed then (m, []) else
       let id := natArg (((ws.getLastD "").splitOn ":").headD "")
@@ -357,6 +380,7 @@ def monitor (m : Mon) (ws : List String) (impl : String) : Mon × List String :=
     -- once, in order, each region with its own leader
     match field impl "acc", field impl "msgs", natField impl "next" with
     | some acc, some ms, some n =>
+      let m := { m with lnext := some n }
       let accepted := (specs.zip acc.toList).filterMap (fun (x : String × Char) =>
         if x.2 == '1' then (parseRegion x.1).map (fun r => (r.md.id, match r.leader with | some p => p.id | none => 0)) else none)
       let fails := if C16.checkBroadcast accepted (msgPairs ms) then [] else
